@@ -2,6 +2,31 @@ import MindsVerif.Model.Plan
 /-! Basic facts about `stepsOK`, `addStep`, blocks and the partition primitives. -/
 namespace MindsVerif.Plan
 
+/-- `PlanningException` / `NotImplementedError` -/
+def IsUserErr : Err → Prop
+  | .planning _ => True
+  | .notImpl _ => True
+  | .internal _ => False
+
+/-- the planner never ends with an internal error (whatever plan it is started from) -/
+def NoInternal (f : Planner) : Prop :=
+  ∀ plan, match f plan with
+    | .ok _ => True
+    | .error e => IsUserErr e
+
+/-- C09 for one planner call: started from any well-formed plan of length ≥ `n` (`n` bounds the results the
+planner refers to from outside) it raises a user-level error or returns a well-formed plan that extends the
+old one by at least one step and whose returned step is the last one -/
+def Good (n : Nat) (f : Planner) : Prop :=
+  ∀ plan, n ≤ plan.length → stepsOK 0 plan = true →
+    match f plan with
+    | .ok (plan', x) =>
+      stepsOK 0 plan' = true ∧ plan <+: plan' ∧ plan.length < plan'.length ∧ x = .top (plan'.length - 1)
+    | .error e => IsUserErr e
+
+theorem Good.mono {n m : Nat} {f : Planner} (h : Good n f) (hnm : n ≤ m) : Good m f :=
+  fun plan hl hok => h plan (Nat.le_trans hnm hl) hok
+
 theorem stepsOK_append (a b : List Step) (i : Nat) :
     stepsOK i (a ++ b) = (stepsOK i a && stepsOK (i + a.length) b) := by
   induction a generalizing i with
